@@ -36,7 +36,7 @@ VARIABLES cfg,   \* [role, pmce, limit, hmode, herrAt, policy]
 S0 == [pos |-> 1, frag |-> FALSE, rd |-> "none", start |-> 0, cur |-> 0,
        used |-> 0, got |-> 0, mlen |-> 0, mhuge |-> FALSE,
        failed |-> FALSE, nrid |-> -1, wild |-> FALSE, hn |-> 0,
-       zgot |-> 0, zobs |-> 0,
+       zgot |-> 0, zobs |-> 0, lazy |-> FALSE,
        nerr |-> 0]               \* NextReader calls that returned an error (the documented panic comes with the 1000th)   \* compressed message: plaintext bytes delivered / side effects already reported
 
 Min(a, b) == IF a < b THEN a ELSE b
@@ -149,7 +149,7 @@ NRLoop(st, obs, len) ==
   IN
   IF k = "data" THEN
       LET s2 == Enter(st) IN
-      Out([s2 EXCEPT !.rd = "open", !.start = st.pos, !.got = 0, !.zgot = 0, !.zobs = 0], obs, "data", FALSE)
+      Out([s2 EXCEPT !.rd = "open", !.start = st.pos, !.got = 0, !.zgot = 0, !.zobs = 0, !.lazy = FALSE], obs, "data", FALSE)
   ELSE IF k = "cont" THEN
       \* continuation of an abandoned message: its payload must be skipped
       IF Arrived(fr[st.pos])
@@ -278,9 +278,16 @@ NRNext(st, w, e) ==
 (* the terminator), and the terminal outcome (always an error outcome:     *)
 (* the join reader ends only when the connection does).                    *)
 (***************************************************************************)
+(* A message whose bytes reach the application through an opaque consumer  *)
+(* (the inflater of a compressed message, the JSON decoder of ReadJSON):   *)
+(* the model keeps the wire position at the start of the message and       *)
+(* counts the side effects of the whole-message walk already reported.     *)
+Lazy(st) == st.rd = "open" /\ (fr[st.start].comp \/ st.lazy)
+DropObs(w, k) == [w EXCEPT !.obs = SubSeq(w.obs, k + 1, Len(w.obs))]
+
 RECURSIVE JALoop(_, _, _, _, _, _)
 JALoop(st, obs, starts, lens, total, tl) ==
-  LET w1 == NRWalk(st, FALSE) IN
+  LET w1 == IF ~st.wild /\ Lazy(st) THEN DropObs(NRWalk(st, FALSE), st.zobs) ELSE NRWalk(st, FALSE) IN
   IF st.failed THEN [s |-> st, obs |-> obs, starts |-> starts, lens |-> lens, total |-> total, partial |-> 0, w |-> Out(st, << >>, "failed", FALSE)]
   ELSE IF w1.res # "data" THEN
        [s |-> w1.s, obs |-> obs \o w1.obs, starts |-> starts, lens |-> lens, total |-> total, partial |-> 0, w |-> [w1 EXCEPT !.obs = obs \o w1.obs]]
@@ -363,7 +370,6 @@ RDNext(st, w, n, e) ==
 (* replies) of the whole-message walk already reported by earlier calls.   *)
 (* w is RALoop from the message start.                                     *)
 (***************************************************************************)
-DropObs(w, k) == [w EXCEPT !.obs = SubSeq(w.obs, k + 1, Len(w.obs))]
 ZWhole(st) == fr[st.start].plain
 
 RDZAllowed(st, w, k, n, e, obs) ==
@@ -406,5 +412,48 @@ RANext(st, w, e) ==
   ELSE IF w.res = "wild" THEN w.s
   ELSE IF e.cls = "nil" THEN [w.s EXCEPT !.rd = "eof"]
   ELSE [w.s EXCEPT !.rd = "err", !.failed = TRUE]
+
+(***************************************************************************)
+(* ReadJSON = NextReader, then a JSON decoder that consumes an unknown     *)
+(* prefix of the message (at least the first JSON value, at most the whole *)
+(* message) and never hands the reader to the application.  The frame that *)
+(* starts a message carries `jneed`: -1 if the content does not begin with *)
+(* a JSON value, otherwise the number of content bytes the decoder has to  *)
+(* see to know that the first value is complete (content length + 1 when   *)
+(* only the end of the message terminates it, as for a bare number).       *)
+(* w1 = NextReader walk (a "data" outcome), w2 = whole-message walk from   *)
+(* w1.s.  Three explanations of a report (ok, e, obs, cand):               *)
+(*   "value"  the value was delivered: it is the one encoded by THIS       *)
+(*            message and all the bytes it needs arrived before any        *)
+(*            obstacle; side effects are a prefix of the message's         *)
+(*   "syntax" the content is not JSON: an error that is neither a          *)
+(*            transport/protocol error nor io.EOF; the connection lives on *)
+(*   "fault"  the walk's obstacle (truncation, violation, limit, handler   *)
+(*            error, close) was reported: permanent                        *)
+(***************************************************************************)
+RJPrefixObs(w1, w2, obs) ==
+  LET all == w1.obs \o w2.obs IN
+  /\ Len(obs) >= Len(w1.obs) /\ Len(obs) <= Len(all)
+  /\ ObsSeqMatch(SubSeq(all, 1, Len(obs)), obs)
+
+RJValueAllowed(w1, w2, ok, e, obs, cand) ==
+  LET f == fr[w1.s.start] IN
+  /\ ok /\ e.cls = "nil" /\ f.jneed >= 0 /\ w1.s.start \in Rng(cand)
+  /\ RJPrefixObs(w1, w2, obs)
+  /\ \/ w2.res = "eom"
+     \/ w2.res # "eom" /\ (IF f.comp THEN f.jneed <= f.plain ELSE f.jneed <= w2.s.got)
+
+RJSyntaxAllowed(w1, w2, ok, e, obs) ==
+  /\ ~ok /\ e.cls = "other" /\ fr[w1.s.start].jneed < 0
+  /\ RJPrefixObs(w1, w2, obs)
+
+RJFaultAllowed(w1, w2, ok, e, obs) ==
+  LET wc == [w2 EXCEPT !.obs = w1.obs \o w2.obs] IN
+  /\ ~ok /\ IsRealErr(e) /\ ObsOK(wc, obs)
+  /\ \/ ErrOutcome(w2.res) /\ ErrFits(w2, e)
+     \/ w2.res = "eom" /\ fr[w2.s.cur].arr = "with"
+
+RJLazyNext(w1, obs) == [w1.s EXCEPT !.lazy = TRUE, !.zobs = Len(obs) - Len(w1.obs)]
+RJFaultNext(w2) == [w2.s EXCEPT !.rd = "err", !.failed = TRUE]
 
 =============================================================================
